@@ -147,3 +147,38 @@ Proof.
 Qed.
 Print Assumptions classes_declared.
 Print Assumptions completion_declared.
+
+Theorem classes_declared_short : forall w : CoreAst.workspace,
+  let St := O.absN (Indexer.index_ws w) in
+  exists cl, class_syms St = SOk cl /\
+    NoDup (map cs_name cl) /\
+    (forall c, In c cl -> V.last_decl (cs_name c) (V.declared_classes w) = Some (cs_ntargs c)) /\
+    (forall n k, V.last_decl n (V.declared_classes w) = Some k -> In {| cs_name := n; cs_ntargs := k |} cl).
+Proof. intros w St. destruct (classes_declared w) as (cl & E & _ & H). exists cl. split; [exact E|exact H]. Qed.
+
+From TG.Model Require AstToCore Pipeline.
+From TG.Proofs Require IndexerPipeline BridgeText.
+Theorem pipeline_classes : forall pfuel cfuel files root a w,
+  Pipeline.analyze pfuel cfuel files root = Some a -> Pipeline.an_core a = AstToCore.Ok w ->
+  forall tr off p rest, ancestors_at tr off = Some (p :: S_ClassRef :: rest) ->
+  exists cl, completion_sm (O.absN (Indexer.index_ws w)) tr off None = SOk (Some (map class_item cl)) /\
+    NoDup (map cs_name cl) /\
+    (forall c, In c cl -> V.last_decl (cs_name c) (V.declared_classes w) = Some (cs_ntargs c)) /\
+    (forall n k, V.last_decl n (V.declared_classes w) = Some k -> In {| cs_name := n; cs_ntargs := k |} cl) /\
+    (forall c, In c cl -> ~ In 36%N (cs_name c) ->
+       item_label (class_item c) = cs_name c /\
+       tabstops (class_snippet c) = map N.of_nat (seq 1 (cs_ntargs c)) ++ [0%N]).
+Proof. intros pfuel cfuel files root a w _ _ tr off p rest Ha. exact (completion_declared w tr off p rest Ha). Qed.
+
+Example pipeline_classes_nonvacuous :
+  exists a w, Pipeline.analyze 200 10 [(IndexerPipeline.pipe_ex_path, BridgeText.bridge_example_text)] IndexerPipeline.pipe_ex_path = Some a /\
+    Pipeline.an_core a = AstToCore.Ok w /\
+    V.declared_classes w = [([65%N], 1%nat)] /\
+    class_syms (O.absN (Indexer.index_ws w)) = SOk [ {| cs_name := [65%N]; cs_ntargs := 1 |} ].
+Proof.
+  pose proof IndexerPipeline.pipe_ex_w_eq as H. unfold IndexerPipeline.pipe_ex_w_val in H.
+  match type of H with _ = Some ?w0 => destruct (IndexerPipeline.pipe_ex_from w0 H) as (a & A & E); exists a, w0 end.
+  split; [exact A|]. split; [exact E|]. split; vm_compute; reflexivity.
+Qed.
+Print Assumptions pipeline_classes.
+Print Assumptions pipeline_classes_nonvacuous.
